@@ -6,6 +6,8 @@ import json, os, subprocess, sys, shutil, re
 PINNED = "562467b"
 WT = "/tmp/wt/confirm"
 VEC = {"C14", "C15", "C16", "C19"}
+SUFFIX = os.environ.get("SEED_SUFFIX", "")
+MS = tuple(os.environ.get("SEED_MS", "m1,m2").split(","))
 def sh(cmd, **kw):
     p = subprocess.run(cmd, shell=True, stdout=subprocess.PIPE, stderr=subprocess.STDOUT, text=True, **kw)
     return p.returncode, p.stdout
@@ -19,8 +21,8 @@ def main():
     results = []
     try:
         for p in props:
-            out_dir = "/tmp/wt/%s-out" % p
-            for m in ("m1", "m2"):
+            out_dir = "/tmp/wt/%s-out%s" % (p, SUFFIX)
+            for m in MS:
                 diff = os.path.join(out_dir, m + ".diff")
                 demos = [f for f in os.listdir(out_dir) if f.endswith("_test.go") and ("_" + m + "_") in f or f.endswith("_test.go") and m in f.lower().replace("_", "")]
                 demos = [f for f in os.listdir(out_dir) if f.endswith("_test.go") and re.search(r'(?i)%s' % m, f)]
